@@ -98,5 +98,3 @@ Lemma fixed_hops_selects_dsl_frame : forall bf site d u rest,
   fr_kind d = Dsl -> select 2 false (bf :: site :: d :: u :: rest) = Some d.
 Proof. reflexivity. Qed.
 
-(* the part of try_get_line_info before `lines = ...`: package test, reading and caching the file *)
-Definition expected_li_pre : list string := ["if _in_package(backend_frame.f_code.co_filename): ;     return (0, 0)"; "filename = os.path.basename(backend_frame.f_code.co_filename)"; "src = None"; "try: ;     if filename not in USED_SOURCES: ;         with open(f'{backend_frame.f_code.co_filename}', encoding='utf-8') as file: ;             src = file.read() ;         USED_SOURCES[filename] = src ;     else: ;         src = USED_SOURCES[filename] ; except OSError: ;     return (0, 0)"].
